@@ -350,12 +350,12 @@ RdDelete ==      \* sessHub.delete.  -> rd.deleted
   /\ UNCHANGED <<status, notified, discHooks, sockClosed, lock, callVars, readVars, rhpc, nfput,
                  hdlVars, clpc, rdSeen, rdTodo, netVars, enteredAtClose>>
 
-RdWait ==        \* graceCtxWait.  -> rd.waited
-  /\ rdpc = "deleted" /\ wgCtx = 0 /\ rdpc' = "waited"
+RdWait ==        \* graceCtxWait (after the pending calls were cancelled: a handler may be waiting for one of them).  -> rd.waited
+  /\ rdpc = "cancelled" /\ wgCtx = 0 /\ rdpc' = "waited"
   /\ UNCHANGED <<sessVars, callVars, readVars, rhpc, nfput, hdlVars, clpc, rdSeen, rdTodo, netVars, enteredAtClose>>
 
 RdRange ==       \* callCmdMap.Range starts: it visits the calls in the table now
-  /\ rdpc = "waited" /\ rdpc' = "cancel" /\ rdTodo' = pending
+  /\ rdpc = "deleted" /\ rdpc' = "cancel" /\ rdTodo' = pending
   /\ UNCHANGED <<sessVars, callVars, readVars, rhpc, nfput, hdlVars, clpc, rdSeen, netVars, enteredAtClose>>
 
 RdCancelOne(c) == \* one Range iteration: Lock; if !hasReply && stat.OK cancel; Unlock
@@ -372,7 +372,7 @@ RdCancelEnd ==   \* -> rd.cancelled
   /\ UNCHANGED <<sessVars, callVars, readVars, rhpc, nfput, hdlVars, clpc, rdSeen, rdTodo, netVars, enteredAtClose>>
 
 RdSock ==        \* ActiveClosing seen: return; else socket.Close.  -> (return) | rd.sock
-  /\ rdpc = "cancelled"
+  /\ rdpc = "waited"
   /\ IF rdSeen = "ActiveClosing" THEN rdpc' = "end" /\ UNCHANGED sockClosed
                                  ELSE rdpc' = "sock" /\ sockClosed' = TRUE
   /\ UNCHANGED <<status, indexed, notified, discHooks, lock, callVars, readVars, rhpc, nfput,
